@@ -27,7 +27,7 @@ ASSUMPTIONS = [
     "wrapper rules: the first command of a non-empty prefix enters configuration mode; 'commit*' only with do_commit; save/write/copy only with do_finalize",
     "R7 (vf/ref/deploy.py) for rule chains; sibling deploy rules have disjoint languages; no %ifcontext in generated rulebooks",
 ]
-FLOORS = {"quick": {"streams_compared": 3000, "commands_compared": 20000, "exits_seen": 3000, "rule_params_checked": 5000, "nondefault_params": 500, "production_jobs": 200, "cases_with_two_apply_logics": 100, "xpl_patches": 500, "xpl_endif_lines_shown": 500, "production_real_jobs": 12, "regexp_dialogs_checked": 200, "context_rulebooks": 400, "ifcontext_rules_matched": 300, "command_contexts_checked": 8000, "exit_contexts_checked": 2000},
+FLOORS = {"quick": {"streams_compared": 3000, "commands_compared": 20000, "exits_seen": 3000, "rule_params_checked": 5000, "nondefault_params": 500, "production_jobs": 200, "cases_with_two_apply_logics": 100, "xpl_patches": 500, "xpl_endif_lines_shown": 500, "production_real_jobs": 12, "regexp_dialogs_checked": 200, "context_rulebooks": 400, "ifcontext_rules_matched": 300, "command_contexts_checked": 8000, "exit_contexts_checked": 2000, "commands_governed_by_one_of_two_same_row_rules": 300},
           "thorough": {"streams_compared": 90000, "commands_compared": 600000, "exits_seen": 90000, "rule_params_checked": 150000, "nondefault_params": 15000, "production_jobs": 6000, "xpl_patches": 12000, "xpl_endif_lines_shown": 12000, "production_real_jobs": 12}}
 MODELS = {
     "huawei": ["Huawei", "Huawei CE6870", "Huawei NE40E-X8", "Huawei Quidway S5300"],
@@ -107,17 +107,29 @@ def gen_deploy_rules(rng, rules, prefix, flat_pool, depth=0, ctx=False):
         for pat in ([r.pat] + ([prefix + " " + r.pat] if rng.random() < 0.6 else [])):
             attrs = {"apply": (rng.random() < 0.25), "timeout": float(rng.randint(31, 99)),
                      # plain-text prompts and /regexp/ prompts (the latter are matched as regular expressions by the driver)
-                     "dialogs": [(("/Q%d %s.*/" if rng.random() < 0.4 else "Q%d %s?") % (rng.randint(1, 99), w), "Y")
+                     # (prompts may hold a literal percent sign, as IOS error prompts do: it is not a parameter unless `%name` follows a blank)
+                     "dialogs": [(rng.choice(["/Q%d %s.*/", "/Q%d %s.*/", "Q%d %s?", "Q%d %s?", "Q%d %s?", "%% Q%d do you %s? [yes/no]:", "Q%d 100%% %s?"]) % (rng.randint(1, 99), w), "Y")
                                  for w in rng.sample(["sure", "really", "continue"], rng.randint(0, 2))]}
+            twin = None
             if ctx and rng.random() < 0.5:
                 attrs["ifcontext"] = rng.sample(["block:cA", "block:cB", "block:cC"], rng.randint(1, 2))
+                if rng.random() < 0.5:
+                    # a sibling rule with the same row text for the other contexts (as one would extend aruba.deploy): other timeout and dialogs
+                    rest = [c for c in ["block:cA", "block:cB", "block:cC", "block:cD"] if c not in attrs["ifcontext"]]
+                    twin = (pat, {"apply": False, "timeout": float(rng.randint(100, 140)), "dialogs": [("Q%d twin?" % rng.randint(1, 99), "N")],
+                                  "ifcontext": rng.sample(rest, rng.randint(1, len(rest))), "twin": True}, [])
             children = []
             if r.children and not pat.startswith(prefix + " "):
                 if rng.random() < 0.5:
                     children = gen_deploy_rules(rng, r.children, prefix, flat_pool, depth + 1, ctx)
                 else:
                     flat_pool.extend(gen_deploy_rules(rng, r.children, prefix, flat_pool, depth + 1, ctx))
+            if twin is not None and rng.random() < 0.5:
+                out.append(twin)  # before or after the rule it accompanies
+                twin = None
             out.append((pat, attrs, children))
+            if twin is not None:
+                out.append(twin)
     return out
 
 
@@ -134,11 +146,15 @@ def render_deploy(rules, ind=0):
 
 def dedupe_first_words(rules):
     """keep sibling languages disjoint: one rule per distinct pattern"""
-    seen, out = set(), []
+    seen, out = {}, []
     for pat, attrs, ch in rules:
         if pat in seen:
-            continue
-        seen.add(pat)
+            # the only admitted repetition: two rules of one row text with disjoint %ifcontext lists
+            first = seen[pat]
+            if not (len(first) == 1 and first[0].get("ifcontext") and attrs.get("ifcontext") and not set(first[0]["ifcontext"]) & set(attrs["ifcontext"])
+                    and (attrs.get("twin") or first[0].get("twin"))):
+                continue
+        seen.setdefault(pat, []).append(attrs)
         out.append((pat, attrs, dedupe_first_words(ch)))
     return out
 
@@ -167,6 +183,7 @@ def check_stream(pt, model, vname, flags, acc, w, deploy_rules=None, deploy_comp
         shown.append((ind // len(fmt._indent), ln.strip()))
     flat = [(len(p) - 1, p[-1]) for p in paths]
     ctx_of = w.get("_ctx_of")
+    twins = w.get("_twins", ())
     w = dict({k_: v_ for k_, v_ in w.items() if not k_.startswith("_")}, model=model, flags=list(flags), shown=[list(x) for x in shown][:80])
     acc.count("streams_compared")
     acc.count("commands_compared", len(flat))
@@ -254,6 +271,8 @@ def check_stream(pt, model, vname, flags, acc, w, deploy_rules=None, deploy_comp
             exp = RDP.find(deploy_rules, p, real_ctx)
             if exp and exp[1].get("ifcontext"):
                 acc.count("ifcontext_rules_matched")
+                if exp[0] in twins:
+                    acc.count("commands_governed_by_one_of_two_same_row_rules")
             et = exp[1]["timeout"] if exp else 30
             eq = [((q[1:-1], a, True) if (q.startswith("/") and q.endswith("/")) else (q, a, False)) for q, a in exp[1]["dialogs"]] if exp else []
             gq = [(q.question, q.answer, bool(q.is_regexp)) for q in (c.questions or [])]
@@ -341,6 +360,11 @@ def check_case(seed, acc, ctx=False):
         flat_pool = []
         dr = gen_deploy_rules(rng, rules, prefix, flat_pool, 0, ctx)
         deploy_rules = dedupe_first_words(dr + flat_pool)
+
+        def twin_pats(level):
+            pats = [p_ for p_, _, _ in level]
+            return {p_ for p_ in pats if pats.count(p_) > 1} | {x for _, _, ch_ in level for x in twin_pats(ch_)}
+        w["_twins"] = twin_pats(deploy_rules)
         dtext = "\n".join(render_deploy(deploy_rules))
         w["deploy_rulebook"] = dtext
         w["custom_apply"] = "apply_logic" in dtext
